@@ -413,6 +413,53 @@ class Vals:
         return NotImplemented
 
 
+# ---- CPython axioms used by contracts about sorting ------------------------------------------------------------------------
+FD = Function('py_first_diff', _Z, _Z, _Z)              # first index at which two sequences differ (`is` or ==), else min length
+
+
+def same_elem(p, q):
+    """the element test of tuple / list comparison: identical or equal"""
+    return Or(p == q, py_eq(p, q))
+
+
+def seq_lt_axiom(a, b):
+    """CPython's tuple / list `<` (instance for the pair a, b of one sequence type): find the first index w where the
+    elements are neither identical nor ==; if there is none compare the lengths, else the result - and any TypeError - is
+    that of a[w] < b[w]"""
+    n = If(ln(a) <= ln(b), ln(a), ln(b))
+    w = FD(a, b)
+    j = Int('j!fd')
+    return And(0 <= w, w <= n,
+               ForAll([j], Implies(And(0 <= j, j < w), same_elem(at(a, j), at(b, j))), patterns=[z3.MultiPattern(at(a, j), at(b, j))]),
+               Implies(w < n, Not(same_elem(at(a, w), at(b, w)))),
+               NLTC_RAISES(a, b) == And(w < n, Not(lt_defined(at(a, w), at(b, w)))),
+               Implies(Not(NLTC_RAISES(a, b)), NLTC(a, b) == If(w < n, py_lt(at(a, w), at(b, w)), ln(a) < ln(b))))
+
+
+SEQ_LT_NOTE = ('axiom:tuple / list `<` compares the first pair of elements that are neither identical nor ==, else the lengths; it raises '
+               'exactly when that element comparison raises (CPython richcompare)')
+
+
+def sorted_result(ex, st, L, le, label='sorted'):
+    """the value returned by sorted(L, ...) when it returns: a new list that is a permutation of L (same objects) and is
+    non-decreasing under the total preorder `le` with which the supplied comparison agrees (premise discharged by the caller).
+    Returns (handle of the result, permutation function pi: result position -> source position)."""
+    R = fresh_int(label)
+    pi = Function(fresh_name('pi'), _Z, _Z)
+    pinv = Function(fresh_name('pinv'), _Z, _Z)
+    p, q = Int('p!srt'), Int('q!srt')
+    n = ln(L)
+    st.assume(And(tag(R) == LIST_T, ln(R) == n,
+                  ForAll([p], Implies(And(0 <= p, p < n), And(0 <= pi(p), pi(p) < n, at(R, p) == at(L, pi(p)), pinv(pi(p)) == p)),
+                         patterns=[pi(p), at(R, p)]),
+                  ForAll([q], Implies(And(0 <= q, q < n), And(0 <= pinv(q), pinv(q) < n, pi(pinv(q)) == q)), patterns=[pinv(q)]),
+                  ForAll([p, q], Implies(And(0 <= p, p < q, q < n), le(at(R, p), at(R, q))), patterns=[z3.MultiPattern(at(R, p), at(R, q))])))
+    ex.use('axiom:sorted(xs, ...) returns a new list that is a permutation of xs; it is non-decreasing under every total preorder with which '
+           'the supplied comparison agrees wherever that comparison is defined; it raises only an exception raised by a comparison it performs '
+           '(which comparisons CPython performs is not modelled)')
+    return R, pi, pinv
+
+
 # ---- witnesses / replay helpers -------------------------------------------------------------------------------------------
 def witness_fields(prefix, h):
     return {prefix + '_id': h, prefix + '_tag': tag(h), prefix + '_b': bv(h), prefix + '_i': iv(h), prefix + '_fk': fk(h), prefix + '_r': rv(h),
